@@ -255,6 +255,28 @@ def r3_parenthesise(ctx):
         if parens:
             ctx.ok(f, '%s wraps compound operands in parentheses' % cname,
                    parens[0])
+            # the decision to wrap may depend on the operand's *type* or
+            # count, never on which operator is involved
+            g = ctx.cfg(f)
+            for pn in [n for n in g.nodes
+                       if any(a is parens[0] for a in n.walk())]:
+                for t in g.nodes:
+                    if t.kind != 'test':
+                        continue
+                    if not (g.guarded_by(pn, t, 'T') or
+                            g.guarded_by(pn, t, 'F')):
+                        continue
+                    if any(isinstance(a, ast.Attribute) and
+                           a.attr in ('connector', 'conditional', 'op')
+                           for a in ast.walk(t.ast)) and \
+                            isinstance(t.ast, ast.Compare):
+                        ctx.finding(f, t.ast, '%s parenthesises a compound '
+                                    'operand only when "%s": grouping that '
+                                    'depends on the operator loses '
+                                    'right-nested operands of the same '
+                                    'operator (a - (b - c) is rendered a - b '
+                                    '- c)' % (cname, unparse(t.ast)),
+                                    key='parens-depend-on-operator')
         else:
             ctx.finding(f, recursive[0], '%s joins recursively rendered '
                         'operands with an infix operator without '
